@@ -426,10 +426,10 @@ package ech
 //@   check[F:padding-zero] inner != nil ==> forall(j, offset(msg) + chExStart(msg) + chExLen(msg), offset(msg) + len(msg), mem(msg, j) == 0)
 //@   ensures[F:seq-first] inner != nil && !isRetry ==> hseq(c.hpkeCtx) == 1
 //@   ensures[F:seq-retry] isRetry ==> c.hpkeCtx == old(c.hpkeCtx) && (inner != nil ==> hseq(c.hpkeCtx) == 2) && 1 <= hseq(c.hpkeCtx) && hseq(c.hpkeCtx) <= 2
-//@   at "eoeSeen = true" assert[L:marker-here] firstFrom(rx2, 0xfd00, 0) == ri2 && len(newExt) == ri2 && ext == rx2[ri2]
-//@   at "for p < len(h.Extensions) &&" assert[L:type-read] int(extType) == be16(ext.Data, 1 + 2*(len(newExt) - entry(len(newExt))))
-//@   at "if p == len(h.Extensions)" assert[L:scan-result] p == firstFrom(h.Extensions, int(extType), ite(len(newExt) - entry(len(newExt)) <= 0, 0, splicePos(h.Extensions, ext.Data, len(newExt) - entry(len(newExt)) - 1) + 1))
-//@   at "newExt = append(newExt, h.Extensions[p])" assert[L:found-at] p < len(h.Extensions) && p == splicePos(h.Extensions, ext.Data, len(newExt) - entry(len(newExt)))
+//@   at "eoeSeen = true" lemma[L:marker-here] firstFrom(rx2, 0xfd00, 0) == ri2 && len(newExt) == ri2 && ext == rx2[ri2]
+//@   at "for p < len(h.Extensions) &&" lemma[L:type-read] int(extType) == be16(ext.Data, 1 + 2*(len(newExt) - entry(len(newExt))))
+//@   at "if p == len(h.Extensions)" lemma[L:scan-result] p == firstFrom(h.Extensions, int(extType), ite(len(newExt) - entry(len(newExt)) <= 0, 0, splicePos(h.Extensions, ext.Data, len(newExt) - entry(len(newExt)) - 1) + 1))
+//@   at "newExt = append(newExt, h.Extensions[p])" lemma[L:found-at] p < len(h.Extensions) && p == splicePos(h.Extensions, ext.Data, len(newExt) - entry(len(newExt)))
 //@   loop 1 "range c.keys"
 //@     invariant[no-ctx-yet] !isRetry ==> c.hpkeCtx == nil
 //@     invariant[ctx-kept] isRetry ==> c.hpkeCtx == old(c.hpkeCtx) && hseq(c.hpkeCtx) == 1
@@ -457,7 +457,7 @@ package ech
 //@     assumes !isRetry && h.tls13 && h.echExt != nil && len(c.keys) > 0 && len(h.echExt.Enc) > 0 && parsedFrom(h, m) && noSlack(m) && len(m) <= 65535 && echUnique(h) && aadIs(aadv, h, m)
 //@     assumes forall(i, 0, len(c.keys), keyCand(c.keys[i], h) ==> hprivOk(be16(c.keys[i].Config, 5), cid(c.keys[i].PrivateKey)), trig(c.keys[i]))
 //@     callsite "ctx.Open(" requires[F:aad-is-outer] bytesEq(arg0, aadv)
-//@     at "c.hpkeCtx = ctx" assert[F:opened-here] keyOpens(key, h, aadv) && hid(ctx) == keySetup(key, h) && key == c.keys[ri1]
+//@     at "c.hpkeCtx = ctx" lemma[F:opened-here] keyOpens(key, h, aadv) && hid(ctx) == keySetup(key, h) && key == c.keys[ri1]
 //@     ensures[F:nomatch-only-if-none-opens] err == errNoMatch ==> forall(i, 0, len(c.keys), !keyOpens(c.keys[i], h, aadv), trig(c.keys[i]))
 //@     ensures[F:first-opening-key] inner != nil ==> exists(i, 0, len(c.keys), keyOpens(c.keys[i], h, aadv) && hid(c.hpkeCtx) == keySetup(c.keys[i], h) && forall(u, 0, i, !keyOpens(c.keys[u], h, aadv), trig(c.keys[u])))
 //@     ensures[F:opening-key-never-falls-back] (inner == nil && (err == nil || err == errNoMatch)) ==> forall(i, 0, len(c.keys), !keyOpens(c.keys[i], h, aadv), trig(c.keys[i]))
@@ -741,7 +741,7 @@ package ech
 //@   callsite "t.HTTP3Transport.RoundTrip(" requires[F:records-compatible] forall(k, 0, len(trOf(arg0).result.HTTPS), int(trOf(arg0).result.HTTPS[k].Priority) != 0 && offersH3(trOf(arg0).result.HTTPS[k]), trig(trOf(arg0).result.HTTPS[k]))
 //@   callsite "t.HTTPTransport.RoundTrip(" requires[F:records-compatible] forall(k, 0, len(trOf(arg0).result.HTTPS), int(trOf(arg0).result.HTTPS[k].Priority) != 0 &&
 //@       (len(trOf(arg0).result.HTTPS[k].ALPN) == 0 || !trOf(arg0).result.HTTPS[k].NoDefaultALPN || exists(q, 0, len(trOf(arg0).result.HTTPS[k].ALPN), trOf(arg0).result.HTTPS[k].ALPN[q] == "h2" || trOf(arg0).result.HTTPS[k].ALPN[q] == "http/1.1")), trig(trOf(arg0).result.HTTPS[k]))
-//@   at "return false" assert[F:kept-means-compatible] compat(hh, alpn, mustHave)
+//@   at "return false" lemma[F:kept-means-compatible] compat(hh, alpn, mustHave)
 //@   loop 1 "range res.HTTPS"
 //@     invariant[F:none-usable-yet] !useH3 && forall(j, 0, ri1, int(res.HTTPS[j].Priority) == 0 || (!offersH3(res.HTTPS[j]) && !offersOther(res.HTTPS[j])), trig(res.HTTPS[j]))
 //@   loop 2 "slices.DeleteFunc(result.HTTPS"
